@@ -97,6 +97,9 @@ op_cli_run(json_t *args)
         }
         free(b);
     }
+    /* "rand": the child inherits the RAND_bytes tape (jwe enc: CEK, IVs, salts become predictable) */
+    if (json_object_get(args, "rand"))
+        hx_tape_set(args);
     fflush(stdout);
     pid = fork();
     if (pid == 0) {
@@ -122,6 +125,8 @@ op_cli_run(json_t *args)
         }
     }
     waitpid(pid, &status, 0);
+    if (json_object_get(args, "rand"))
+        hx_tape_clear();
     if (WIFEXITED(status))
         json_object_set_new(res, "status", json_integer(WEXITSTATUS(status)));
     else
